@@ -507,7 +507,12 @@ func lexText(l *lexer) stateFn {
 			case '*':
 				maybeEmitText(l, 2)
 				if l.next() == '*' {
-					return lexSoyDoc(l)
+					// "/**/" is an empty block comment, not the start of a soydoc.
+					if l.next() != '/' {
+						l.backup()
+						return lexSoyDoc(l)
+					}
+					l.backup()
 				}
 				l.backup()
 				return lexBlockComment(l)
